@@ -173,3 +173,58 @@ def run(ctx):
             ctx.finding(f'c/update/{k}', f'digest update #{k+1} takes {order[k]} (expected {w})', cm.loc)
     if order[2][0] not in ('call', 'local'):
         ctx.finding('c/update/2', f'the outer digest is not fed with the formatted inner digest ({order[2]})', cm.loc)
+
+
+    # ---------------------------------------------------------------- (d) the authenticated identity is the name the client sent
+    from ..engine.symexpr import Sym
+    import re
+    ctx.rule('C29.d', 'handle_startup: the user name handed to authenticate() and to Session::new is the "user" startup parameter as sent '
+             '(or the default), without case folding, trimming or other rewriting — the password store and the MD5 digest are keyed by the exact name')
+    hs = [f for f in prog.fns.values() if f.nice.startswith(CH + 'handle_startup::{closure') and f.coroutine]
+    ctx.require(len(hs) == 1, 'handle_startup coroutine not found')
+    hs = hs[0]
+    sy = Sym(hs)
+
+    def saved_field_source(place_sym_arg):
+        """for an operand that reads a saved coroutine local (..@N.k): the expressions assigned to that slot"""
+        m = re.search(r'@(\d+)\.(\d+)$', place_sym_arg)
+        if not m:
+            return [place_sym_arg]
+        tail = ['@' + m.group(1), '.' + m.group(2)]
+        out = []
+        for bi, b in enumerate(hs.blocks):
+            for st in b['s']:
+                if 'd' in st and st['d'][1][-2:] == tail:
+                    out.append(sy._one(0, (bi, 'assign', st['v']), 0))
+            t = b['t']
+            if t['k'] == 'call' and t.get('d') and t['d'][1][-2:] == tail:
+                short = re.sub(r'<.*>$', '', callee_name(t) or '?').rsplit('::', 1)[-1]
+                out.append(f'{short}(' + ', '.join(sy.op(a) for a in t['args']) + ')')
+        return out or [place_sym_arg]
+    REWRITE = re.compile(r'\b(lower|upper|trim\w*|to_ascii_\w+|replace|to_lowercase|to_uppercase|split\w*|strip_\w+|chars|nfkc|normalize)\(')
+    nuser = 0
+    for i, t in hs.calls():
+        cn = callee_name(t) or ''
+        which = None
+        if cn == CH + 'authenticate':
+            which = ('authenticate', t['args'][1])
+        elif cn.endswith('session::Session::new'):
+            which = ('Session::new', t['args'][1])
+        if which is None:
+            continue
+        nuser += 1
+        srcs = saved_field_source(sy.op(which[1]))
+        ctx.instance(f'd/{which[0]}', {'rule': 'C29.d', 'user_argument': [x[:160] for x in srcs]})
+        # closures applied on the way (map(|u| ..)): their results are part of the derivation
+        extra = []
+        for e in srcs:
+            for k in re.findall(r'closure#(\d+)\(', e):
+                for c in prog.fns.values():
+                    if c.nice == hs.nice + '::{closure#%s}' % k:
+                        extra.append(Sym(c).local(0))
+        for e in srcs + extra:
+            if REWRITE.search(e) or (e in srcs and "'user'" not in e):
+                ctx.finding(f'd/{which[0]}/rewritten-user', f'handle_startup passes `{e[:120]}` as the user name to {which[0]}: the name is rewritten (or does not come '
+                            'from the "user" startup parameter) before the credentials are looked up, so a different account than the one the '
+                            'client named is authenticated', f'{hs.file}:{t["l"]}')
+    ctx.floor('C29.d uses of the startup user name', nuser, 2)
